@@ -146,6 +146,10 @@ where
     pub fn build<P: Into<PathBuf>>(&mut self, file: P) -> BuildResult {
         let file = file.into();
         self.working_dir = file.parent().unwrap().to_path_buf();
+        // Output locks guard against a second out statement within one file
+        // build. They must not leak into the next file built with the same
+        // environment.
+        self.environment.borrow_mut().out_lock.clear();
         let ptr = self.environment.borrow_mut().get_ops_for_path(&file)?;
         let eval_result = self.eval_ops(ptr, Some(file.clone()));
         match eval_result {
